@@ -129,7 +129,7 @@ def _pp_hash(u):
     if r.returncode != 0:
         return None, r.stderr.decode(errors="replace")
     h = hashlib.sha256()
-    h.update(b"nlx-v3\n")
+    h.update(b"nlx-v4\n")
     h.update(" ".join(args).encode())
     h.update(r.stdout)
     return h.hexdigest()[:24], ""
